@@ -103,6 +103,8 @@ FIRST_MISSED = {
     "C03-12": "no check reported it -> NONCE/HSK-ORDER ruleKeySchedule: InitializeKey is called from the key schedule only (InitializeKeyWithSalt, rotateKey, mixKey, InitializeSymmetric)",
     "C11-12": "own property silent (reported by C05 LOCKBAL) -> C11 shares LOCKBAL",
     "C02-12": "no check reported it -> KEYSEP ruleEphemeralFresh: no production code configures an ephemeral key generator; the default is btcec.NewPrivateKey, assigned once",
+    "C04-11": "no check reported it -> SYM-2/3: EncryptAndHash/DecryptAndHash seal/open into a buffer of their own (nil destination)",
+    "C04-12": "own property silent (C07 ASSERT only) -> PUBLISH rulePayloadSource: what writeMsgPattern encrypts is nothing, payloadToSend, or a buffer allocated in this call",
     "C06-3": "no check reported it -> RATELIMIT: once lastResend is refreshed the packets are transmitted",
 }
 
